@@ -438,6 +438,34 @@ fn run_stream_check(opts: &Opts, prop: Prop, known: &[Known]) -> (Vec<Phase>, BT
             }
             None
         });
+        // every burst (span <= 24) at every position of payload + checksum of the L = 1, 2, 3 frames
+        let sw_frames: Vec<sweep::CorpusFrame> = [1usize, 2, 3]
+            .iter()
+            .map(|l| {
+                let p: Vec<u8> = (0..*l).map(|i| 0x3E_u8.wrapping_add((i as u8).wrapping_mul(0x91))).collect();
+                sweep::CorpusFrame { label: format!("foreign:L={},r=0,fixed", l), bytes: refmodel::make_frame(0, &p) }
+            })
+            .collect();
+        let mut sw_items: Vec<(usize, usize)> = Vec::new();
+        for (fi, f) in sw_frames.iter().enumerate() {
+            for start in 24..f.bytes.len() * 8 {
+                sw_items.push((fi, start));
+            }
+        }
+        let sw_evals = std::sync::atomic::AtomicU64::new(0);
+        let (st_sw, fail_sw) = par_run(sw_items.len() as u64, opts.jobs, |i, st| {
+            let (fi, start) = sw_items[i as usize];
+            let (done, bad) = sweep::sliding_window_slice(&sw_frames[fi], start);
+            sw_evals.fetch_add(done, std::sync::atomic::Ordering::Relaxed);
+            st.oracle_evals += done;
+            st.fault_n("c04_burst", done);
+            if let Some(t) = bad {
+                let v = judge_stream(&t, prop, None).unwrap_or_else(|| Violation::new("C04", "C04.a", "burst pattern accepted".into()));
+                return handle(v, Payload::Stream(t));
+            }
+            None
+        });
+        let sw_total = sw_evals.into_inner();
         let cw_total = cw_evals.into_inner();
         let c = counts_m.into_inner().unwrap();
         extra = json!({
@@ -450,12 +478,17 @@ fn run_stream_check(opts: &Opts, prop: Prop, known: &[Known]) -> (Vec<Phase>, BT
                 format!("every single-bit position (reserved bits, payload, checksum) of {} corpus frames (frames up to {} bytes)", c.flip1_exhaustive_frames, plan.single_all_max_len),
                 format!("all bit pairs of {} corpus frames (frames up to {} bytes)", c.flip2_exhaustive_frames, plan.pairs_all_max_len),
                 format!("every burst span 2..=24 x every start position (all-ones interior + one random interior) of {} corpus frames (frames up to {} bytes)", c.burst_exhaustive_frames, plan.burst_all_max_len),
+                format!("every burst of span <= 24 at every start position (all interiors) over payload + checksum of the L = 1, 2, 3 frames: {} patterns", sw_total),
                 format!("every corruption confined to the 24 checksum bits (all 2^24-1 XOR patterns, i.e. every burst interior) of {} frames: {} patterns", cw_frames.len(), cw_total),
             ],
             "sampled_subspaces": ["bit pairs on longer frames (distance biased to 1,8,23,24,25,far)", "odd counts 3..=33", "burst start positions on longer frames", "burst interior patterns"],
         });
         let mut st = st;
         st.merge(st_cw);
+        st.merge(st_sw);
+        if let Some(f) = fail_sw {
+            report_failure(opts, f);
+        }
         phases.push(Phase { name: "c04_fault_sweep".into(), items: corpus.len() as u64, stats: st, wall_s: t0.elapsed().as_secs_f64() });
         if let Some(f) = fail {
             report_failure(opts, f);
